@@ -517,7 +517,7 @@ def yD : Decoder yC :=
       P.run_bind_some _ _ _ _ _ (Prim.run_decBlob r.2 rest hw.2)]
     rfl)
 
-example : ∀ r : Int × Bytes, yC.enc r ≠ [] := by
+theorem yC_nonempty : ∀ r : Int × Bytes, yC.enc r ≠ [] := by
   intro r h
   have : (yC.enc r).length = 0 := by rw [h]; rfl
   simp [yC, Prim.encI_length] at this
@@ -583,6 +583,36 @@ example : ((LogSink.decoder LogSink.fac0 LogSink.fac0_ok).dec (LogSink.codec.enc
     some (5898, [42]) := by decide +kernel
 
 example : (LogSink.codec.enc demoLS).take 8 = [23, 10, 1, 7, 0, 0, 0, 31] := by decide +kernel
+
+/-- `demoLS` meets the writer's guards: the hypothesis `LogSink.WFRec` of `decodable_logsink` /
+    `receiver_gets_records` is satisfiable -/
+example : LogSink.WFRec demoLS := by
+  unfold LogSink.WFRec
+  simp only [Packs.Hand.LogSinkPack.w, Gen.Packs.LogSinkPack.w, Packs.Hand.tagSection, L.WF]
+  refine ⟨?_, ?_, ?_, rfl, ?_, ?_, ⟨?_, _, rfl⟩, rfl, ?_, ?_, ?_, rfl, ?_, trivial⟩
+  · show Layout.Hdr.WF ⟨7, 31, 0, 0, 1700000000000⟩; decide
+  · show (0 : Int) ≤ 0 ∧ (0 : Int) < 256; decide
+  · show [99, 97, 116].length < 2147483648; decide
+  · show Prim.inRange 8 0; decide
+  · show Prim.inRange 8 0; decide
+  · show Value.WFV (.map [([107], .text [118])]); decide
+  · show Prim.inRange 8 1; decide
+  · show Prim.inRange 8 1; decide
+  · show [104, 105].length < 2147483648; decide
+  · intro h; exact absurd h (by decide)
+
+
+/-- `receiver_gets_records` instantiated (factory `fac0`, gzip-as-prefix) -/
+example (st : Settings) (ans : List Bool) (h : List (In Layout.Rec)) :=
+  receiver_gets_records .fixed xZ rfl xU LogSink.fac0 LogSink.fac0_ok ⟨1, 2, 0, 0, 3⟩ st ans h
+
+/-- the hypotheses of `all_emitted_at_stop` are met by a running sender with a non-empty codec -/
+example : (final .fixed xZ yC (init defaults) [.add (1, [1]), .append (2, [2])]).stopped = false := by decide
+example := all_emitted_at_stop xZ yC yC_nonempty defaults [] [.add (1, [1]), .append (2, [2])] (by decide)
+
+/-- `batch_within_limits` instantiated: no configuration update in the history -/
+example := batch_within_limits .fixed xZ yC rfl yC_nonempty ⟨50, 1000, 100, 3⟩ [false, true]
+  [.add (1000, [1]), .step, .append (1010, [2, 3]), .sendDirect [(1, [4])], .stop] (by decide)
 
 end
 
